@@ -15,6 +15,8 @@ for n in sorted(os.listdir(os.path.join(V, "seeded"))):
     if only and n not in only:
         continue
     d = os.path.join(V, "seeded", n)
+    if not os.path.isdir(d):
+        continue
     meta = json.load(open(os.path.join(d, "meta.json")))
     ids = [] if full else ([meta["property"]] if own_only else sorted(set(meta.get("caught_by", [])) | {meta["property"]}))
     r = seedtest.run(d, ids)
